@@ -298,6 +298,15 @@ func (u *Unit) lookupName(env *SpecEnv, name string) (*Cell, bool) {
 			return c, true
 		}
 	}
+	// compiler-generated names such as jump$1 are written jump_1 in specs
+	if i := strings.LastIndex(name, "_"); i > 0 {
+		alt := name[:i] + "$" + name[i+1:]
+		for _, m := range env.named {
+			if c, ok := m[alt]; ok {
+				return c, true
+			}
+		}
+	}
 	return nil, false
 }
 
@@ -569,6 +578,8 @@ func (u *Unit) isNilTerm(t T) T {
 
 func (u *Unit) resolveType(env *SpecEnv, e ast.Expr) types.Type {
 	switch x := e.(type) {
+	case *ast.ParenExpr:
+		return u.resolveType(env, x.X)
 	case *ast.StarExpr:
 		if t := u.resolveType(env, x.X); t != nil {
 			return types.NewPointer(t)
@@ -915,6 +926,35 @@ func (u *Unit) evalCall(env *SpecEnv, x *ast.CallExpr) SV {
 		q := fmt.Sprintf("(forall ((q!seqi Int)) (! (=> (and (<= 0 q!seqi) (< q!seqi (slen %s))) (= %s %s)) :pattern (%s) :pattern (%s)))", sa.S, ea.S, eb.S, ea.S, eb.S)
 		return SV{V: And(Eq(app(SInt, "slen", sa), app(SInt, "slen", sb)), T{q, SBool}), Typ: boolT}
 	}
+	// ghost heaps: NAME(key)
+	if gh, ok := u.eng.spec.GhostHeaps[name]; ok && len(x.Args) == 1 {
+		k := argT(0)
+		h := u.heapGet(env.hv, "G!"+gh.Name, ArrSort(gh.Key, gh.Val))
+		return SV{V: Select(h, k)}
+	}
+	if name == "nth" && len(x.Args) == 3 {
+		// nth(ev, k, i): argument i of the k-th (0-based) call of a recorded event
+		id, _ := x.Args[0].(*ast.Ident)
+		bl, _ := x.Args[2].(*ast.BasicLit)
+		if id == nil || bl == nil {
+			return env.fail("nth(ev, k, i)")
+		}
+		key := "seq!" + id.Name + "!" + bl.Value
+		arr, ok := env.cnt[key]
+		if !ok {
+			srt := SInt
+			n, _ := strconv.Atoi(bl.Value)
+			for _, ev := range u.eng.spec.Events {
+				if ev.Name == id.Name && ev.Record {
+					if s2, ok := ev.RecordArgs[n]; ok {
+						srt = s2
+					}
+				}
+			}
+			arr = u.seqArray(env.st, key, srt)
+		}
+		return SV{V: Select(arr, argT(1))}
+	}
 	// spec-level definitions (macros)
 	if d, ok := u.eng.spec.Defs[name]; ok {
 		n := *env
@@ -956,7 +996,7 @@ func (u *Unit) evalCall(env *SpecEnv, x *ast.CallExpr) SV {
 		return SV{V: app(g.Ret, name, args...)}
 	}
 	// type conversion T(x)
-	if len(x.Args) == 1 {
+	if len(x.Args) == 1 && name != "" || len(x.Args) == 1 && isTypeExpr(x.Fun) {
 		if t := u.resolveType(env, x.Fun); t != nil {
 			v := arg(0)
 			return SV{V: v.V, Typ: t}
@@ -1037,4 +1077,31 @@ func (u *Unit) lockedExpr(env *SpecEnv, c *Clause) (name string, base T, mode in
 	v := u.evalExpr(env, call.Args[0])
 	name, base, ok = u.lockIdent(env.st, v.V)
 	return
+}
+
+func isTypeExpr(e ast.Expr) bool {
+	switch x := e.(type) {
+	case *ast.ParenExpr:
+		return isTypeExpr(x.X)
+	case *ast.StarExpr, *ast.FuncType, *ast.IndexExpr:
+		return true
+	}
+	return false
+}
+
+// ownedExpr recognises owned(sliceExpr) in an ensures clause.
+func (u *Unit) ownedExpr(env *SpecEnv, c *Clause) (SV, bool) {
+	g, isGo := c.Expr.(*SEGo)
+	if !isGo {
+		return SV{}, false
+	}
+	call, isCall := g.E.(*ast.CallExpr)
+	if !isCall {
+		return SV{}, false
+	}
+	id, isId := call.Fun.(*ast.Ident)
+	if !isId || id.Name != "owned" || len(call.Args) != 1 {
+		return SV{}, false
+	}
+	return u.evalExpr(env, call.Args[0]), true
 }
